@@ -322,9 +322,81 @@ pub fn channel(rng: &mut StdRng, family: &str, bps: usize, n: usize) -> Vec<i32>
                 *x = rng.gen_range(-a..=a) as i32;
             }
         }
+        "ricebump" => {
+            // The coded size as a function of the partition order has a LOCAL minimum at the 64-sample
+            // scale, gets worse when neighbours are merged (they want different parameters; the merge
+            // costs a little more than the 4-bit header it saves) and reaches its GLOBAL minimum at a
+            // much coarser order.  Candidates are drawn and kept when the curve (computed here with
+            // the Rice cost formula) really has that shape.
+            let mut best: Option<Vec<i32>> = None;
+            for _try in 0..300 {
+                let m = rng.gen_range(52..=62usize);
+                let j = rng.gen_range(0..=2u32);
+                let shuffle = rng.gen_bool(0.5);
+                let a_kind = rng.gen_range(0..3);
+                let mut cand = vec![0i32; n];
+                for (pi, part) in cand.chunks_mut(64).enumerate() {
+                    if pi % 2 == 1 {
+                        let mut b: Vec<i32> = (0..part.len()).map(|i| if i < m { 1 } else { -2 }).collect();
+                        if shuffle {
+                            for i in (1..b.len()).rev() {
+                                b.swap(i, rng.gen_range(0..=i));
+                            }
+                        }
+                        part.copy_from_slice(&b);
+                    } else if a_kind == 1 {
+                        for (i, x) in part.iter_mut().enumerate() {
+                            *x = i32::from(i % 16 == 0 && rng.gen_bool(0.3));
+                        }
+                    }
+                    for x in part.iter_mut() {
+                        *x = clampw(i64::from(*x) << j, bps);
+                    }
+                }
+                let curve = rice_cost_curve(&cand, 14);
+                // curve[o] = bits at partition order o; look for: finer local minimum, worse neighbour, better far coarser
+                let fine = curve.len() - 1;
+                let bumpy = (1..=fine).any(|o| curve[o] < curve[o - 1] && curve[..o].iter().any(|c| *c < curve[o]));
+                if bumpy {
+                    best = Some(cand);
+                    break;
+                }
+                if best.is_none() {
+                    best = Some(cand);
+                }
+            }
+            v = best.unwrap();
+        }
         _ => panic!("unknown family {family}"),
     }
     v
+}
+
+/// Bits of the Rice-coded residual `res` (no warm-up) for every partition order 0..=max with
+/// partitions of at least 1 sample, best parameter 0..=maxp per partition (4-bit method).
+pub fn rice_cost_curve(res: &[i32], maxp: u32) -> Vec<u64> {
+    let n = res.len();
+    let mut out = vec![];
+    let mut order = 0u32;
+    while order <= 15 && n % (1usize << order) == 0 && (n >> order) >= 1 {
+        let plen = n >> order;
+        let mut total = 0u64;
+        for part in res.chunks(plen) {
+            let mut bestp = u64::MAX;
+            for k in 0..=maxp {
+                let mut bits = 4u64;
+                for &e in part {
+                    let u = if e >= 0 { 2 * e as u64 } else { (-2 * e as i64 - 1) as u64 };
+                    bits += (u >> k) + 1 + u64::from(k);
+                }
+                bestp = bestp.min(bits);
+            }
+            total += bestp;
+        }
+        out.push(total);
+        order += 1;
+    }
+    out
 }
 
 /// Multi-channel signal (per-channel vectors) with the given channel relation.
